@@ -115,6 +115,22 @@ func LoadEngine(repoDir string, patterns []string, depsDir string) (*Engine, err
 				return nil, err
 			}
 			for _, c := range cf.Contracts {
+				if c.View != "" {
+					// a view is a further specification of the function, proved from its body in the context "view:<name>" and
+					// used only by functions verified in that context; the primary contract (what every other caller sees) is untouched
+					ck := "view:" + c.View
+					if e.CtxContracts == nil {
+						e.CtxContracts = map[string]map[string]*Contract{}
+					}
+					if e.CtxContracts[c.Key] == nil {
+						e.CtxContracts[c.Key] = map[string]*Contract{}
+					}
+					if old := e.CtxContracts[c.Key][ck]; old != nil {
+						return nil, fmt.Errorf("duplicate contract for %s in view %s (%s:%d and %s:%d)", c.Key, c.View, old.File, old.Line, c.File, c.Line)
+					}
+					e.CtxContracts[c.Key][ck] = c
+					continue
+				}
 				if old, dup := e.Contracts[c.Key]; dup {
 					// The same function or interface method may carry one contract per *verification context*: the contract
 					// in its own package is the primary one (and the one implementations are checked against); a contract
@@ -327,6 +343,16 @@ func (e *Engine) lookupContract(key string) *Contract {
 		}
 	}
 	return e.Contracts[key]
+}
+
+// contractForCtx: the contract of fn as seen from the verification context ctx ("" = the current one).
+func (e *Engine) contractForCtx(fn *ssa.Function, ctx string) *Contract {
+	if fn != nil && ctx != "" {
+		if m := e.CtxContracts[fn.String()]; m != nil && m[ctx] != nil {
+			return m[ctx]
+		}
+	}
+	return e.contractFor(fn)
 }
 
 func (e *Engine) inRepo(fn *ssa.Function) bool {
